@@ -24,7 +24,7 @@ import sympy as sp
 
 from ..core import norm, calls_in, kwarg, AnalysisError, assigns_to, cmp_canon
 from ..flow import Reaching
-from ..symx import SymEval, Path
+from ..symx import SymEval, Path, PyStub, Opaque
 
 NL = 'atomman/core/nlist.pyx'
 NLP = 'atomman/core/NeighborList.py'
@@ -347,8 +347,20 @@ def insertion(ctx):
     ctx.ob('INSERTION', loc, 'bin width is capacity+1 initially and after growth, growth >= 1', sp.expand(wb0 - (B + 1)) == 0 and sp.expand(wb1 - (B + gv + 1)) == 0 and gv >= 1,
            'initial %s, grown %s, capacity += %s' % (wb0, wb1, gv), node=ab[1])
     cpb = [l for l in _loops(fill) if any(isinstance(s, ast.Assign) and norm(s.targets[0]).startswith('newbins[') for s in l.body)]
-    ok = bool(cpb) and sp.expand(_sym(cpb[-1].iter.args[0], ['maxatomsperbin']) - wb0) == 0
-    ctx.ob('INSERTION', loc, 'bin growth copies every old slot', ok, norm(cpb[-1].iter) if cpb else '', node=cpb[-1] if cpb else fill)
+    ok = False
+    if cpb and len(cpb[-1].iter.args) == 1:
+        # accepted bounds: the whole old width (capacity + 1), or the occupied part (count + 1: the count slot and `count` atom ids)
+        class _Tab(PyStub):
+            def __getitem__(self, ix):
+                if isinstance(ix, tuple) and len(ix) == 4 and ix[3] == 0:
+                    return sp.Symbol('count', positive=True)
+                raise Opaque('bin table read in a loop bound')
+        try:
+            bnd = SymEval().ev(cpb[-1].iter.args[0], Path({'maxatomsperbin': B, 'xyzbins': _Tab(), 'i': sp.Symbol('i'), 'j': sp.Symbol('j'), 'k': sp.Symbol('k')}))
+            ok = sp.expand(bnd - wb0) == 0 or sp.expand(bnd - (sp.Symbol('count', positive=True) + 1)) == 0
+        except Opaque:
+            ok = False
+    ctx.ob('INSERTION', loc, 'bin growth copies every old slot in use (the count slot and all atom slots)', ok, norm(cpb[-1].iter) if cpb else '', node=cpb[-1] if cpb else fill)
     gbi = gb[0]._parent
     cc = cmp_canon(gbi.test) if isinstance(gbi, ast.If) else None
     ok = cc is not None and ((cc[1] == '==' and set((cc[0], cc[2])) == {'c', 'maxatomsperbin'}) or cc in (('c', '>=', 'maxatomsperbin'),))
@@ -399,5 +411,6 @@ def run(ctx):
                        'membership test, sorted symmetric insertion and storage growth are structural/affine obligations on the lowered tree; NeighborList view layout and writer/reader agreement. '
                        'Not decided: the pair set of a concrete configuration (needs distances).')
     from .c02 import minfold, DM
+    from .. import readonly
     ctx.run_rules([lambda c: sweep_fill(c) and None, stencil, geometry, membership, insertion, neighborlist,
-                   lambda c: minfold(c, DM, 'dmag2_c', False)])
+                   lambda c: minfold(c, DM, 'dmag2_c', False), lambda c: readonly.rule(c, NL, floor=5) and None])
